@@ -24,6 +24,11 @@ Local Open Scope N_scope.
    round; we fold from the most significant bit: acc := 2*acc + b *)
 Definition nb (b : bool) (acc : N) : N := if b then N.succ_double acc else N.double acc.
 
+(* full adder: (sum, carry out) *)
+Definition fa (a b c : bool) : bool * bool :=
+  if a then (if b then (c, true) else (negb c, c))
+  else (if b then (negb c, c) else (c, false)).
+
 (* ======== generated word operations: 32 bit ======== *)
 Inductive w32 : Type := W32 (x31 x30 x29 x28 x27 x26 x25 x24 x23 x22 x21 x20 x19 x18 x17 x16 x15 x14 x13 x12 x11 x10 x9 x8 x7 x6 x5 x4 x3 x2 x1 x0 : bool).
 
@@ -34,7 +39,7 @@ Definition w32_xor (a b : w32) : w32 :=
 
 Definition w32_xor3 (a b c : w32) : w32 :=
   match a, b, c with W32 a31 a30 a29 a28 a27 a26 a25 a24 a23 a22 a21 a20 a19 a18 a17 a16 a15 a14 a13 a12 a11 a10 a9 a8 a7 a6 a5 a4 a3 a2 a1 a0, W32 b31 b30 b29 b28 b27 b26 b25 b24 b23 b22 b21 b20 b19 b18 b17 b16 b15 b14 b13 b12 b11 b10 b9 b8 b7 b6 b5 b4 b3 b2 b1 b0, W32 c31 c30 c29 c28 c27 c26 c25 c24 c23 c22 c21 c20 c19 c18 c17 c16 c15 c14 c13 c12 c11 c10 c9 c8 c7 c6 c5 c4 c3 c2 c1 c0 =>
-    W32 (xorb a31 (xorb b31 c31)) (xorb a30 (xorb b30 c30)) (xorb a29 (xorb b29 c29)) (xorb a28 (xorb b28 c28)) (xorb a27 (xorb b27 c27)) (xorb a26 (xorb b26 c26)) (xorb a25 (xorb b25 c25)) (xorb a24 (xorb b24 c24)) (xorb a23 (xorb b23 c23)) (xorb a22 (xorb b22 c22)) (xorb a21 (xorb b21 c21)) (xorb a20 (xorb b20 c20)) (xorb a19 (xorb b19 c19)) (xorb a18 (xorb b18 c18)) (xorb a17 (xorb b17 c17)) (xorb a16 (xorb b16 c16)) (xorb a15 (xorb b15 c15)) (xorb a14 (xorb b14 c14)) (xorb a13 (xorb b13 c13)) (xorb a12 (xorb b12 c12)) (xorb a11 (xorb b11 c11)) (xorb a10 (xorb b10 c10)) (xorb a9 (xorb b9 c9)) (xorb a8 (xorb b8 c8)) (xorb a7 (xorb b7 c7)) (xorb a6 (xorb b6 c6)) (xorb a5 (xorb b5 c5)) (xorb a4 (xorb b4 c4)) (xorb a3 (xorb b3 c3)) (xorb a2 (xorb b2 c2)) (xorb a1 (xorb b1 c1)) (xorb a0 (xorb b0 c0))
+    W32 (if a31 then (if b31 then c31 else negb c31) else (if b31 then negb c31 else c31)) (if a30 then (if b30 then c30 else negb c30) else (if b30 then negb c30 else c30)) (if a29 then (if b29 then c29 else negb c29) else (if b29 then negb c29 else c29)) (if a28 then (if b28 then c28 else negb c28) else (if b28 then negb c28 else c28)) (if a27 then (if b27 then c27 else negb c27) else (if b27 then negb c27 else c27)) (if a26 then (if b26 then c26 else negb c26) else (if b26 then negb c26 else c26)) (if a25 then (if b25 then c25 else negb c25) else (if b25 then negb c25 else c25)) (if a24 then (if b24 then c24 else negb c24) else (if b24 then negb c24 else c24)) (if a23 then (if b23 then c23 else negb c23) else (if b23 then negb c23 else c23)) (if a22 then (if b22 then c22 else negb c22) else (if b22 then negb c22 else c22)) (if a21 then (if b21 then c21 else negb c21) else (if b21 then negb c21 else c21)) (if a20 then (if b20 then c20 else negb c20) else (if b20 then negb c20 else c20)) (if a19 then (if b19 then c19 else negb c19) else (if b19 then negb c19 else c19)) (if a18 then (if b18 then c18 else negb c18) else (if b18 then negb c18 else c18)) (if a17 then (if b17 then c17 else negb c17) else (if b17 then negb c17 else c17)) (if a16 then (if b16 then c16 else negb c16) else (if b16 then negb c16 else c16)) (if a15 then (if b15 then c15 else negb c15) else (if b15 then negb c15 else c15)) (if a14 then (if b14 then c14 else negb c14) else (if b14 then negb c14 else c14)) (if a13 then (if b13 then c13 else negb c13) else (if b13 then negb c13 else c13)) (if a12 then (if b12 then c12 else negb c12) else (if b12 then negb c12 else c12)) (if a11 then (if b11 then c11 else negb c11) else (if b11 then negb c11 else c11)) (if a10 then (if b10 then c10 else negb c10) else (if b10 then negb c10 else c10)) (if a9 then (if b9 then c9 else negb c9) else (if b9 then negb c9 else c9)) (if a8 then (if b8 then c8 else negb c8) else (if b8 then negb c8 else c8)) (if a7 then (if b7 then c7 else negb c7) else (if b7 then negb c7 else c7)) (if a6 then (if b6 then c6 else negb c6) else (if b6 then negb c6 else c6)) (if a5 then (if b5 then c5 else negb c5) else (if b5 then negb c5 else c5)) (if a4 then (if b4 then c4 else negb c4) else (if b4 then negb c4 else c4)) (if a3 then (if b3 then c3 else negb c3) else (if b3 then negb c3 else c3)) (if a2 then (if b2 then c2 else negb c2) else (if b2 then negb c2 else c2)) (if a1 then (if b1 then c1 else negb c1) else (if b1 then negb c1 else c1)) (if a0 then (if b0 then c0 else negb c0) else (if b0 then negb c0 else c0))
   end.
 
 Definition w32_ch (a b c : w32) : w32 :=
@@ -64,57 +69,57 @@ Definition w32_rotl30 (a : w32) : w32 :=
 
 Definition w32_bsig0 (a : w32) : w32 :=
   match a with W32 a31 a30 a29 a28 a27 a26 a25 a24 a23 a22 a21 a20 a19 a18 a17 a16 a15 a14 a13 a12 a11 a10 a9 a8 a7 a6 a5 a4 a3 a2 a1 a0 =>
-    W32 (xorb a1 (xorb a12 a21)) (xorb a0 (xorb a11 a20)) (xorb a31 (xorb a10 a19)) (xorb a30 (xorb a9 a18)) (xorb a29 (xorb a8 a17)) (xorb a28 (xorb a7 a16)) (xorb a27 (xorb a6 a15)) (xorb a26 (xorb a5 a14)) (xorb a25 (xorb a4 a13)) (xorb a24 (xorb a3 a12)) (xorb a23 (xorb a2 a11)) (xorb a22 (xorb a1 a10)) (xorb a21 (xorb a0 a9)) (xorb a20 (xorb a31 a8)) (xorb a19 (xorb a30 a7)) (xorb a18 (xorb a29 a6)) (xorb a17 (xorb a28 a5)) (xorb a16 (xorb a27 a4)) (xorb a15 (xorb a26 a3)) (xorb a14 (xorb a25 a2)) (xorb a13 (xorb a24 a1)) (xorb a12 (xorb a23 a0)) (xorb a11 (xorb a22 a31)) (xorb a10 (xorb a21 a30)) (xorb a9 (xorb a20 a29)) (xorb a8 (xorb a19 a28)) (xorb a7 (xorb a18 a27)) (xorb a6 (xorb a17 a26)) (xorb a5 (xorb a16 a25)) (xorb a4 (xorb a15 a24)) (xorb a3 (xorb a14 a23)) (xorb a2 (xorb a13 a22))
+    W32 (if a1 then (if a12 then a21 else negb a21) else (if a12 then negb a21 else a21)) (if a0 then (if a11 then a20 else negb a20) else (if a11 then negb a20 else a20)) (if a31 then (if a10 then a19 else negb a19) else (if a10 then negb a19 else a19)) (if a30 then (if a9 then a18 else negb a18) else (if a9 then negb a18 else a18)) (if a29 then (if a8 then a17 else negb a17) else (if a8 then negb a17 else a17)) (if a28 then (if a7 then a16 else negb a16) else (if a7 then negb a16 else a16)) (if a27 then (if a6 then a15 else negb a15) else (if a6 then negb a15 else a15)) (if a26 then (if a5 then a14 else negb a14) else (if a5 then negb a14 else a14)) (if a25 then (if a4 then a13 else negb a13) else (if a4 then negb a13 else a13)) (if a24 then (if a3 then a12 else negb a12) else (if a3 then negb a12 else a12)) (if a23 then (if a2 then a11 else negb a11) else (if a2 then negb a11 else a11)) (if a22 then (if a1 then a10 else negb a10) else (if a1 then negb a10 else a10)) (if a21 then (if a0 then a9 else negb a9) else (if a0 then negb a9 else a9)) (if a20 then (if a31 then a8 else negb a8) else (if a31 then negb a8 else a8)) (if a19 then (if a30 then a7 else negb a7) else (if a30 then negb a7 else a7)) (if a18 then (if a29 then a6 else negb a6) else (if a29 then negb a6 else a6)) (if a17 then (if a28 then a5 else negb a5) else (if a28 then negb a5 else a5)) (if a16 then (if a27 then a4 else negb a4) else (if a27 then negb a4 else a4)) (if a15 then (if a26 then a3 else negb a3) else (if a26 then negb a3 else a3)) (if a14 then (if a25 then a2 else negb a2) else (if a25 then negb a2 else a2)) (if a13 then (if a24 then a1 else negb a1) else (if a24 then negb a1 else a1)) (if a12 then (if a23 then a0 else negb a0) else (if a23 then negb a0 else a0)) (if a11 then (if a22 then a31 else negb a31) else (if a22 then negb a31 else a31)) (if a10 then (if a21 then a30 else negb a30) else (if a21 then negb a30 else a30)) (if a9 then (if a20 then a29 else negb a29) else (if a20 then negb a29 else a29)) (if a8 then (if a19 then a28 else negb a28) else (if a19 then negb a28 else a28)) (if a7 then (if a18 then a27 else negb a27) else (if a18 then negb a27 else a27)) (if a6 then (if a17 then a26 else negb a26) else (if a17 then negb a26 else a26)) (if a5 then (if a16 then a25 else negb a25) else (if a16 then negb a25 else a25)) (if a4 then (if a15 then a24 else negb a24) else (if a15 then negb a24 else a24)) (if a3 then (if a14 then a23 else negb a23) else (if a14 then negb a23 else a23)) (if a2 then (if a13 then a22 else negb a22) else (if a13 then negb a22 else a22))
   end.
 
 Definition w32_bsig1 (a : w32) : w32 :=
   match a with W32 a31 a30 a29 a28 a27 a26 a25 a24 a23 a22 a21 a20 a19 a18 a17 a16 a15 a14 a13 a12 a11 a10 a9 a8 a7 a6 a5 a4 a3 a2 a1 a0 =>
-    W32 (xorb a5 (xorb a10 a24)) (xorb a4 (xorb a9 a23)) (xorb a3 (xorb a8 a22)) (xorb a2 (xorb a7 a21)) (xorb a1 (xorb a6 a20)) (xorb a0 (xorb a5 a19)) (xorb a31 (xorb a4 a18)) (xorb a30 (xorb a3 a17)) (xorb a29 (xorb a2 a16)) (xorb a28 (xorb a1 a15)) (xorb a27 (xorb a0 a14)) (xorb a26 (xorb a31 a13)) (xorb a25 (xorb a30 a12)) (xorb a24 (xorb a29 a11)) (xorb a23 (xorb a28 a10)) (xorb a22 (xorb a27 a9)) (xorb a21 (xorb a26 a8)) (xorb a20 (xorb a25 a7)) (xorb a19 (xorb a24 a6)) (xorb a18 (xorb a23 a5)) (xorb a17 (xorb a22 a4)) (xorb a16 (xorb a21 a3)) (xorb a15 (xorb a20 a2)) (xorb a14 (xorb a19 a1)) (xorb a13 (xorb a18 a0)) (xorb a12 (xorb a17 a31)) (xorb a11 (xorb a16 a30)) (xorb a10 (xorb a15 a29)) (xorb a9 (xorb a14 a28)) (xorb a8 (xorb a13 a27)) (xorb a7 (xorb a12 a26)) (xorb a6 (xorb a11 a25))
+    W32 (if a5 then (if a10 then a24 else negb a24) else (if a10 then negb a24 else a24)) (if a4 then (if a9 then a23 else negb a23) else (if a9 then negb a23 else a23)) (if a3 then (if a8 then a22 else negb a22) else (if a8 then negb a22 else a22)) (if a2 then (if a7 then a21 else negb a21) else (if a7 then negb a21 else a21)) (if a1 then (if a6 then a20 else negb a20) else (if a6 then negb a20 else a20)) (if a0 then (if a5 then a19 else negb a19) else (if a5 then negb a19 else a19)) (if a31 then (if a4 then a18 else negb a18) else (if a4 then negb a18 else a18)) (if a30 then (if a3 then a17 else negb a17) else (if a3 then negb a17 else a17)) (if a29 then (if a2 then a16 else negb a16) else (if a2 then negb a16 else a16)) (if a28 then (if a1 then a15 else negb a15) else (if a1 then negb a15 else a15)) (if a27 then (if a0 then a14 else negb a14) else (if a0 then negb a14 else a14)) (if a26 then (if a31 then a13 else negb a13) else (if a31 then negb a13 else a13)) (if a25 then (if a30 then a12 else negb a12) else (if a30 then negb a12 else a12)) (if a24 then (if a29 then a11 else negb a11) else (if a29 then negb a11 else a11)) (if a23 then (if a28 then a10 else negb a10) else (if a28 then negb a10 else a10)) (if a22 then (if a27 then a9 else negb a9) else (if a27 then negb a9 else a9)) (if a21 then (if a26 then a8 else negb a8) else (if a26 then negb a8 else a8)) (if a20 then (if a25 then a7 else negb a7) else (if a25 then negb a7 else a7)) (if a19 then (if a24 then a6 else negb a6) else (if a24 then negb a6 else a6)) (if a18 then (if a23 then a5 else negb a5) else (if a23 then negb a5 else a5)) (if a17 then (if a22 then a4 else negb a4) else (if a22 then negb a4 else a4)) (if a16 then (if a21 then a3 else negb a3) else (if a21 then negb a3 else a3)) (if a15 then (if a20 then a2 else negb a2) else (if a20 then negb a2 else a2)) (if a14 then (if a19 then a1 else negb a1) else (if a19 then negb a1 else a1)) (if a13 then (if a18 then a0 else negb a0) else (if a18 then negb a0 else a0)) (if a12 then (if a17 then a31 else negb a31) else (if a17 then negb a31 else a31)) (if a11 then (if a16 then a30 else negb a30) else (if a16 then negb a30 else a30)) (if a10 then (if a15 then a29 else negb a29) else (if a15 then negb a29 else a29)) (if a9 then (if a14 then a28 else negb a28) else (if a14 then negb a28 else a28)) (if a8 then (if a13 then a27 else negb a27) else (if a13 then negb a27 else a27)) (if a7 then (if a12 then a26 else negb a26) else (if a12 then negb a26 else a26)) (if a6 then (if a11 then a25 else negb a25) else (if a11 then negb a25 else a25))
   end.
 
 Definition w32_ssig0 (a : w32) : w32 :=
   match a with W32 a31 a30 a29 a28 a27 a26 a25 a24 a23 a22 a21 a20 a19 a18 a17 a16 a15 a14 a13 a12 a11 a10 a9 a8 a7 a6 a5 a4 a3 a2 a1 a0 =>
-    W32 (xorb a6 a17) (xorb a5 a16) (xorb a4 a15) (xorb a3 (xorb a14 a31)) (xorb a2 (xorb a13 a30)) (xorb a1 (xorb a12 a29)) (xorb a0 (xorb a11 a28)) (xorb a31 (xorb a10 a27)) (xorb a30 (xorb a9 a26)) (xorb a29 (xorb a8 a25)) (xorb a28 (xorb a7 a24)) (xorb a27 (xorb a6 a23)) (xorb a26 (xorb a5 a22)) (xorb a25 (xorb a4 a21)) (xorb a24 (xorb a3 a20)) (xorb a23 (xorb a2 a19)) (xorb a22 (xorb a1 a18)) (xorb a21 (xorb a0 a17)) (xorb a20 (xorb a31 a16)) (xorb a19 (xorb a30 a15)) (xorb a18 (xorb a29 a14)) (xorb a17 (xorb a28 a13)) (xorb a16 (xorb a27 a12)) (xorb a15 (xorb a26 a11)) (xorb a14 (xorb a25 a10)) (xorb a13 (xorb a24 a9)) (xorb a12 (xorb a23 a8)) (xorb a11 (xorb a22 a7)) (xorb a10 (xorb a21 a6)) (xorb a9 (xorb a20 a5)) (xorb a8 (xorb a19 a4)) (xorb a7 (xorb a18 a3))
+    W32 (xorb a6 a17) (xorb a5 a16) (xorb a4 a15) (if a3 then (if a14 then a31 else negb a31) else (if a14 then negb a31 else a31)) (if a2 then (if a13 then a30 else negb a30) else (if a13 then negb a30 else a30)) (if a1 then (if a12 then a29 else negb a29) else (if a12 then negb a29 else a29)) (if a0 then (if a11 then a28 else negb a28) else (if a11 then negb a28 else a28)) (if a31 then (if a10 then a27 else negb a27) else (if a10 then negb a27 else a27)) (if a30 then (if a9 then a26 else negb a26) else (if a9 then negb a26 else a26)) (if a29 then (if a8 then a25 else negb a25) else (if a8 then negb a25 else a25)) (if a28 then (if a7 then a24 else negb a24) else (if a7 then negb a24 else a24)) (if a27 then (if a6 then a23 else negb a23) else (if a6 then negb a23 else a23)) (if a26 then (if a5 then a22 else negb a22) else (if a5 then negb a22 else a22)) (if a25 then (if a4 then a21 else negb a21) else (if a4 then negb a21 else a21)) (if a24 then (if a3 then a20 else negb a20) else (if a3 then negb a20 else a20)) (if a23 then (if a2 then a19 else negb a19) else (if a2 then negb a19 else a19)) (if a22 then (if a1 then a18 else negb a18) else (if a1 then negb a18 else a18)) (if a21 then (if a0 then a17 else negb a17) else (if a0 then negb a17 else a17)) (if a20 then (if a31 then a16 else negb a16) else (if a31 then negb a16 else a16)) (if a19 then (if a30 then a15 else negb a15) else (if a30 then negb a15 else a15)) (if a18 then (if a29 then a14 else negb a14) else (if a29 then negb a14 else a14)) (if a17 then (if a28 then a13 else negb a13) else (if a28 then negb a13 else a13)) (if a16 then (if a27 then a12 else negb a12) else (if a27 then negb a12 else a12)) (if a15 then (if a26 then a11 else negb a11) else (if a26 then negb a11 else a11)) (if a14 then (if a25 then a10 else negb a10) else (if a25 then negb a10 else a10)) (if a13 then (if a24 then a9 else negb a9) else (if a24 then negb a9 else a9)) (if a12 then (if a23 then a8 else negb a8) else (if a23 then negb a8 else a8)) (if a11 then (if a22 then a7 else negb a7) else (if a22 then negb a7 else a7)) (if a10 then (if a21 then a6 else negb a6) else (if a21 then negb a6 else a6)) (if a9 then (if a20 then a5 else negb a5) else (if a20 then negb a5 else a5)) (if a8 then (if a19 then a4 else negb a4) else (if a19 then negb a4 else a4)) (if a7 then (if a18 then a3 else negb a3) else (if a18 then negb a3 else a3))
   end.
 
 Definition w32_ssig1 (a : w32) : w32 :=
   match a with W32 a31 a30 a29 a28 a27 a26 a25 a24 a23 a22 a21 a20 a19 a18 a17 a16 a15 a14 a13 a12 a11 a10 a9 a8 a7 a6 a5 a4 a3 a2 a1 a0 =>
-    W32 (xorb a16 a18) (xorb a15 a17) (xorb a14 a16) (xorb a13 a15) (xorb a12 a14) (xorb a11 a13) (xorb a10 a12) (xorb a9 a11) (xorb a8 a10) (xorb a7 a9) (xorb a6 (xorb a8 a31)) (xorb a5 (xorb a7 a30)) (xorb a4 (xorb a6 a29)) (xorb a3 (xorb a5 a28)) (xorb a2 (xorb a4 a27)) (xorb a1 (xorb a3 a26)) (xorb a0 (xorb a2 a25)) (xorb a31 (xorb a1 a24)) (xorb a30 (xorb a0 a23)) (xorb a29 (xorb a31 a22)) (xorb a28 (xorb a30 a21)) (xorb a27 (xorb a29 a20)) (xorb a26 (xorb a28 a19)) (xorb a25 (xorb a27 a18)) (xorb a24 (xorb a26 a17)) (xorb a23 (xorb a25 a16)) (xorb a22 (xorb a24 a15)) (xorb a21 (xorb a23 a14)) (xorb a20 (xorb a22 a13)) (xorb a19 (xorb a21 a12)) (xorb a18 (xorb a20 a11)) (xorb a17 (xorb a19 a10))
+    W32 (xorb a16 a18) (xorb a15 a17) (xorb a14 a16) (xorb a13 a15) (xorb a12 a14) (xorb a11 a13) (xorb a10 a12) (xorb a9 a11) (xorb a8 a10) (xorb a7 a9) (if a6 then (if a8 then a31 else negb a31) else (if a8 then negb a31 else a31)) (if a5 then (if a7 then a30 else negb a30) else (if a7 then negb a30 else a30)) (if a4 then (if a6 then a29 else negb a29) else (if a6 then negb a29 else a29)) (if a3 then (if a5 then a28 else negb a28) else (if a5 then negb a28 else a28)) (if a2 then (if a4 then a27 else negb a27) else (if a4 then negb a27 else a27)) (if a1 then (if a3 then a26 else negb a26) else (if a3 then negb a26 else a26)) (if a0 then (if a2 then a25 else negb a25) else (if a2 then negb a25 else a25)) (if a31 then (if a1 then a24 else negb a24) else (if a1 then negb a24 else a24)) (if a30 then (if a0 then a23 else negb a23) else (if a0 then negb a23 else a23)) (if a29 then (if a31 then a22 else negb a22) else (if a31 then negb a22 else a22)) (if a28 then (if a30 then a21 else negb a21) else (if a30 then negb a21 else a21)) (if a27 then (if a29 then a20 else negb a20) else (if a29 then negb a20 else a20)) (if a26 then (if a28 then a19 else negb a19) else (if a28 then negb a19 else a19)) (if a25 then (if a27 then a18 else negb a18) else (if a27 then negb a18 else a18)) (if a24 then (if a26 then a17 else negb a17) else (if a26 then negb a17 else a17)) (if a23 then (if a25 then a16 else negb a16) else (if a25 then negb a16 else a16)) (if a22 then (if a24 then a15 else negb a15) else (if a24 then negb a15 else a15)) (if a21 then (if a23 then a14 else negb a14) else (if a23 then negb a14 else a14)) (if a20 then (if a22 then a13 else negb a13) else (if a22 then negb a13 else a13)) (if a19 then (if a21 then a12 else negb a12) else (if a21 then negb a12 else a12)) (if a18 then (if a20 then a11 else negb a11) else (if a20 then negb a11 else a11)) (if a17 then (if a19 then a10 else negb a10) else (if a19 then negb a10 else a10))
   end.
 
 Definition w32_add (a b : w32) : w32 :=
   match a, b with W32 a31 a30 a29 a28 a27 a26 a25 a24 a23 a22 a21 a20 a19 a18 a17 a16 a15 a14 a13 a12 a11 a10 a9 a8 a7 a6 a5 a4 a3 a2 a1 a0, W32 b31 b30 b29 b28 b27 b26 b25 b24 b23 b22 b21 b20 b19 b18 b17 b16 b15 b14 b13 b12 b11 b10 b9 b8 b7 b6 b5 b4 b3 b2 b1 b0 =>
     let s0 := xorb a0 b0 in let c1 := andb a0 b0 in
-    let s1 := xorb a1 (xorb b1 c1) in let c2 := if a1 then orb b1 c1 else andb b1 c1 in
-    let s2 := xorb a2 (xorb b2 c2) in let c3 := if a2 then orb b2 c2 else andb b2 c2 in
-    let s3 := xorb a3 (xorb b3 c3) in let c4 := if a3 then orb b3 c3 else andb b3 c3 in
-    let s4 := xorb a4 (xorb b4 c4) in let c5 := if a4 then orb b4 c4 else andb b4 c4 in
-    let s5 := xorb a5 (xorb b5 c5) in let c6 := if a5 then orb b5 c5 else andb b5 c5 in
-    let s6 := xorb a6 (xorb b6 c6) in let c7 := if a6 then orb b6 c6 else andb b6 c6 in
-    let s7 := xorb a7 (xorb b7 c7) in let c8 := if a7 then orb b7 c7 else andb b7 c7 in
-    let s8 := xorb a8 (xorb b8 c8) in let c9 := if a8 then orb b8 c8 else andb b8 c8 in
-    let s9 := xorb a9 (xorb b9 c9) in let c10 := if a9 then orb b9 c9 else andb b9 c9 in
-    let s10 := xorb a10 (xorb b10 c10) in let c11 := if a10 then orb b10 c10 else andb b10 c10 in
-    let s11 := xorb a11 (xorb b11 c11) in let c12 := if a11 then orb b11 c11 else andb b11 c11 in
-    let s12 := xorb a12 (xorb b12 c12) in let c13 := if a12 then orb b12 c12 else andb b12 c12 in
-    let s13 := xorb a13 (xorb b13 c13) in let c14 := if a13 then orb b13 c13 else andb b13 c13 in
-    let s14 := xorb a14 (xorb b14 c14) in let c15 := if a14 then orb b14 c14 else andb b14 c14 in
-    let s15 := xorb a15 (xorb b15 c15) in let c16 := if a15 then orb b15 c15 else andb b15 c15 in
-    let s16 := xorb a16 (xorb b16 c16) in let c17 := if a16 then orb b16 c16 else andb b16 c16 in
-    let s17 := xorb a17 (xorb b17 c17) in let c18 := if a17 then orb b17 c17 else andb b17 c17 in
-    let s18 := xorb a18 (xorb b18 c18) in let c19 := if a18 then orb b18 c18 else andb b18 c18 in
-    let s19 := xorb a19 (xorb b19 c19) in let c20 := if a19 then orb b19 c19 else andb b19 c19 in
-    let s20 := xorb a20 (xorb b20 c20) in let c21 := if a20 then orb b20 c20 else andb b20 c20 in
-    let s21 := xorb a21 (xorb b21 c21) in let c22 := if a21 then orb b21 c21 else andb b21 c21 in
-    let s22 := xorb a22 (xorb b22 c22) in let c23 := if a22 then orb b22 c22 else andb b22 c22 in
-    let s23 := xorb a23 (xorb b23 c23) in let c24 := if a23 then orb b23 c23 else andb b23 c23 in
-    let s24 := xorb a24 (xorb b24 c24) in let c25 := if a24 then orb b24 c24 else andb b24 c24 in
-    let s25 := xorb a25 (xorb b25 c25) in let c26 := if a25 then orb b25 c25 else andb b25 c25 in
-    let s26 := xorb a26 (xorb b26 c26) in let c27 := if a26 then orb b26 c26 else andb b26 c26 in
-    let s27 := xorb a27 (xorb b27 c27) in let c28 := if a27 then orb b27 c27 else andb b27 c27 in
-    let s28 := xorb a28 (xorb b28 c28) in let c29 := if a28 then orb b28 c28 else andb b28 c28 in
-    let s29 := xorb a29 (xorb b29 c29) in let c30 := if a29 then orb b29 c29 else andb b29 c29 in
-    let s30 := xorb a30 (xorb b30 c30) in let c31 := if a30 then orb b30 c30 else andb b30 c30 in
+    let '(s1, c2) := fa a1 b1 c1 in
+    let '(s2, c3) := fa a2 b2 c2 in
+    let '(s3, c4) := fa a3 b3 c3 in
+    let '(s4, c5) := fa a4 b4 c4 in
+    let '(s5, c6) := fa a5 b5 c5 in
+    let '(s6, c7) := fa a6 b6 c6 in
+    let '(s7, c8) := fa a7 b7 c7 in
+    let '(s8, c9) := fa a8 b8 c8 in
+    let '(s9, c10) := fa a9 b9 c9 in
+    let '(s10, c11) := fa a10 b10 c10 in
+    let '(s11, c12) := fa a11 b11 c11 in
+    let '(s12, c13) := fa a12 b12 c12 in
+    let '(s13, c14) := fa a13 b13 c13 in
+    let '(s14, c15) := fa a14 b14 c14 in
+    let '(s15, c16) := fa a15 b15 c15 in
+    let '(s16, c17) := fa a16 b16 c16 in
+    let '(s17, c18) := fa a17 b17 c17 in
+    let '(s18, c19) := fa a18 b18 c18 in
+    let '(s19, c20) := fa a19 b19 c19 in
+    let '(s20, c21) := fa a20 b20 c20 in
+    let '(s21, c22) := fa a21 b21 c21 in
+    let '(s22, c23) := fa a22 b22 c22 in
+    let '(s23, c24) := fa a23 b23 c23 in
+    let '(s24, c25) := fa a24 b24 c24 in
+    let '(s25, c26) := fa a25 b25 c25 in
+    let '(s26, c27) := fa a26 b26 c26 in
+    let '(s27, c28) := fa a27 b27 c27 in
+    let '(s28, c29) := fa a28 b28 c28 in
+    let '(s29, c30) := fa a29 b29 c29 in
+    let '(s30, c31) := fa a30 b30 c30 in
     let s31 := xorb a31 (xorb b31 c31) in
     W32 s31 s30 s29 s28 s27 s26 s25 s24 s23 s22 s21 s20 s19 s18 s17 s16 s15 s14 s13 s12 s11 s10 s9 s8 s7 s6 s5 s4 s3 s2 s1 s0
   end.
@@ -143,7 +148,7 @@ Definition w64_xor (a b : w64) : w64 :=
 
 Definition w64_xor3 (a b c : w64) : w64 :=
   match a, b, c with W64 a63 a62 a61 a60 a59 a58 a57 a56 a55 a54 a53 a52 a51 a50 a49 a48 a47 a46 a45 a44 a43 a42 a41 a40 a39 a38 a37 a36 a35 a34 a33 a32 a31 a30 a29 a28 a27 a26 a25 a24 a23 a22 a21 a20 a19 a18 a17 a16 a15 a14 a13 a12 a11 a10 a9 a8 a7 a6 a5 a4 a3 a2 a1 a0, W64 b63 b62 b61 b60 b59 b58 b57 b56 b55 b54 b53 b52 b51 b50 b49 b48 b47 b46 b45 b44 b43 b42 b41 b40 b39 b38 b37 b36 b35 b34 b33 b32 b31 b30 b29 b28 b27 b26 b25 b24 b23 b22 b21 b20 b19 b18 b17 b16 b15 b14 b13 b12 b11 b10 b9 b8 b7 b6 b5 b4 b3 b2 b1 b0, W64 c63 c62 c61 c60 c59 c58 c57 c56 c55 c54 c53 c52 c51 c50 c49 c48 c47 c46 c45 c44 c43 c42 c41 c40 c39 c38 c37 c36 c35 c34 c33 c32 c31 c30 c29 c28 c27 c26 c25 c24 c23 c22 c21 c20 c19 c18 c17 c16 c15 c14 c13 c12 c11 c10 c9 c8 c7 c6 c5 c4 c3 c2 c1 c0 =>
-    W64 (xorb a63 (xorb b63 c63)) (xorb a62 (xorb b62 c62)) (xorb a61 (xorb b61 c61)) (xorb a60 (xorb b60 c60)) (xorb a59 (xorb b59 c59)) (xorb a58 (xorb b58 c58)) (xorb a57 (xorb b57 c57)) (xorb a56 (xorb b56 c56)) (xorb a55 (xorb b55 c55)) (xorb a54 (xorb b54 c54)) (xorb a53 (xorb b53 c53)) (xorb a52 (xorb b52 c52)) (xorb a51 (xorb b51 c51)) (xorb a50 (xorb b50 c50)) (xorb a49 (xorb b49 c49)) (xorb a48 (xorb b48 c48)) (xorb a47 (xorb b47 c47)) (xorb a46 (xorb b46 c46)) (xorb a45 (xorb b45 c45)) (xorb a44 (xorb b44 c44)) (xorb a43 (xorb b43 c43)) (xorb a42 (xorb b42 c42)) (xorb a41 (xorb b41 c41)) (xorb a40 (xorb b40 c40)) (xorb a39 (xorb b39 c39)) (xorb a38 (xorb b38 c38)) (xorb a37 (xorb b37 c37)) (xorb a36 (xorb b36 c36)) (xorb a35 (xorb b35 c35)) (xorb a34 (xorb b34 c34)) (xorb a33 (xorb b33 c33)) (xorb a32 (xorb b32 c32)) (xorb a31 (xorb b31 c31)) (xorb a30 (xorb b30 c30)) (xorb a29 (xorb b29 c29)) (xorb a28 (xorb b28 c28)) (xorb a27 (xorb b27 c27)) (xorb a26 (xorb b26 c26)) (xorb a25 (xorb b25 c25)) (xorb a24 (xorb b24 c24)) (xorb a23 (xorb b23 c23)) (xorb a22 (xorb b22 c22)) (xorb a21 (xorb b21 c21)) (xorb a20 (xorb b20 c20)) (xorb a19 (xorb b19 c19)) (xorb a18 (xorb b18 c18)) (xorb a17 (xorb b17 c17)) (xorb a16 (xorb b16 c16)) (xorb a15 (xorb b15 c15)) (xorb a14 (xorb b14 c14)) (xorb a13 (xorb b13 c13)) (xorb a12 (xorb b12 c12)) (xorb a11 (xorb b11 c11)) (xorb a10 (xorb b10 c10)) (xorb a9 (xorb b9 c9)) (xorb a8 (xorb b8 c8)) (xorb a7 (xorb b7 c7)) (xorb a6 (xorb b6 c6)) (xorb a5 (xorb b5 c5)) (xorb a4 (xorb b4 c4)) (xorb a3 (xorb b3 c3)) (xorb a2 (xorb b2 c2)) (xorb a1 (xorb b1 c1)) (xorb a0 (xorb b0 c0))
+    W64 (if a63 then (if b63 then c63 else negb c63) else (if b63 then negb c63 else c63)) (if a62 then (if b62 then c62 else negb c62) else (if b62 then negb c62 else c62)) (if a61 then (if b61 then c61 else negb c61) else (if b61 then negb c61 else c61)) (if a60 then (if b60 then c60 else negb c60) else (if b60 then negb c60 else c60)) (if a59 then (if b59 then c59 else negb c59) else (if b59 then negb c59 else c59)) (if a58 then (if b58 then c58 else negb c58) else (if b58 then negb c58 else c58)) (if a57 then (if b57 then c57 else negb c57) else (if b57 then negb c57 else c57)) (if a56 then (if b56 then c56 else negb c56) else (if b56 then negb c56 else c56)) (if a55 then (if b55 then c55 else negb c55) else (if b55 then negb c55 else c55)) (if a54 then (if b54 then c54 else negb c54) else (if b54 then negb c54 else c54)) (if a53 then (if b53 then c53 else negb c53) else (if b53 then negb c53 else c53)) (if a52 then (if b52 then c52 else negb c52) else (if b52 then negb c52 else c52)) (if a51 then (if b51 then c51 else negb c51) else (if b51 then negb c51 else c51)) (if a50 then (if b50 then c50 else negb c50) else (if b50 then negb c50 else c50)) (if a49 then (if b49 then c49 else negb c49) else (if b49 then negb c49 else c49)) (if a48 then (if b48 then c48 else negb c48) else (if b48 then negb c48 else c48)) (if a47 then (if b47 then c47 else negb c47) else (if b47 then negb c47 else c47)) (if a46 then (if b46 then c46 else negb c46) else (if b46 then negb c46 else c46)) (if a45 then (if b45 then c45 else negb c45) else (if b45 then negb c45 else c45)) (if a44 then (if b44 then c44 else negb c44) else (if b44 then negb c44 else c44)) (if a43 then (if b43 then c43 else negb c43) else (if b43 then negb c43 else c43)) (if a42 then (if b42 then c42 else negb c42) else (if b42 then negb c42 else c42)) (if a41 then (if b41 then c41 else negb c41) else (if b41 then negb c41 else c41)) (if a40 then (if b40 then c40 else negb c40) else (if b40 then negb c40 else c40)) (if a39 then (if b39 then c39 else negb c39) else (if b39 then negb c39 else c39)) (if a38 then (if b38 then c38 else negb c38) else (if b38 then negb c38 else c38)) (if a37 then (if b37 then c37 else negb c37) else (if b37 then negb c37 else c37)) (if a36 then (if b36 then c36 else negb c36) else (if b36 then negb c36 else c36)) (if a35 then (if b35 then c35 else negb c35) else (if b35 then negb c35 else c35)) (if a34 then (if b34 then c34 else negb c34) else (if b34 then negb c34 else c34)) (if a33 then (if b33 then c33 else negb c33) else (if b33 then negb c33 else c33)) (if a32 then (if b32 then c32 else negb c32) else (if b32 then negb c32 else c32)) (if a31 then (if b31 then c31 else negb c31) else (if b31 then negb c31 else c31)) (if a30 then (if b30 then c30 else negb c30) else (if b30 then negb c30 else c30)) (if a29 then (if b29 then c29 else negb c29) else (if b29 then negb c29 else c29)) (if a28 then (if b28 then c28 else negb c28) else (if b28 then negb c28 else c28)) (if a27 then (if b27 then c27 else negb c27) else (if b27 then negb c27 else c27)) (if a26 then (if b26 then c26 else negb c26) else (if b26 then negb c26 else c26)) (if a25 then (if b25 then c25 else negb c25) else (if b25 then negb c25 else c25)) (if a24 then (if b24 then c24 else negb c24) else (if b24 then negb c24 else c24)) (if a23 then (if b23 then c23 else negb c23) else (if b23 then negb c23 else c23)) (if a22 then (if b22 then c22 else negb c22) else (if b22 then negb c22 else c22)) (if a21 then (if b21 then c21 else negb c21) else (if b21 then negb c21 else c21)) (if a20 then (if b20 then c20 else negb c20) else (if b20 then negb c20 else c20)) (if a19 then (if b19 then c19 else negb c19) else (if b19 then negb c19 else c19)) (if a18 then (if b18 then c18 else negb c18) else (if b18 then negb c18 else c18)) (if a17 then (if b17 then c17 else negb c17) else (if b17 then negb c17 else c17)) (if a16 then (if b16 then c16 else negb c16) else (if b16 then negb c16 else c16)) (if a15 then (if b15 then c15 else negb c15) else (if b15 then negb c15 else c15)) (if a14 then (if b14 then c14 else negb c14) else (if b14 then negb c14 else c14)) (if a13 then (if b13 then c13 else negb c13) else (if b13 then negb c13 else c13)) (if a12 then (if b12 then c12 else negb c12) else (if b12 then negb c12 else c12)) (if a11 then (if b11 then c11 else negb c11) else (if b11 then negb c11 else c11)) (if a10 then (if b10 then c10 else negb c10) else (if b10 then negb c10 else c10)) (if a9 then (if b9 then c9 else negb c9) else (if b9 then negb c9 else c9)) (if a8 then (if b8 then c8 else negb c8) else (if b8 then negb c8 else c8)) (if a7 then (if b7 then c7 else negb c7) else (if b7 then negb c7 else c7)) (if a6 then (if b6 then c6 else negb c6) else (if b6 then negb c6 else c6)) (if a5 then (if b5 then c5 else negb c5) else (if b5 then negb c5 else c5)) (if a4 then (if b4 then c4 else negb c4) else (if b4 then negb c4 else c4)) (if a3 then (if b3 then c3 else negb c3) else (if b3 then negb c3 else c3)) (if a2 then (if b2 then c2 else negb c2) else (if b2 then negb c2 else c2)) (if a1 then (if b1 then c1 else negb c1) else (if b1 then negb c1 else c1)) (if a0 then (if b0 then c0 else negb c0) else (if b0 then negb c0 else c0))
   end.
 
 Definition w64_ch (a b c : w64) : w64 :=
@@ -158,89 +163,89 @@ Definition w64_maj (a b c : w64) : w64 :=
 
 Definition w64_bsig0 (a : w64) : w64 :=
   match a with W64 a63 a62 a61 a60 a59 a58 a57 a56 a55 a54 a53 a52 a51 a50 a49 a48 a47 a46 a45 a44 a43 a42 a41 a40 a39 a38 a37 a36 a35 a34 a33 a32 a31 a30 a29 a28 a27 a26 a25 a24 a23 a22 a21 a20 a19 a18 a17 a16 a15 a14 a13 a12 a11 a10 a9 a8 a7 a6 a5 a4 a3 a2 a1 a0 =>
-    W64 (xorb a27 (xorb a33 a38)) (xorb a26 (xorb a32 a37)) (xorb a25 (xorb a31 a36)) (xorb a24 (xorb a30 a35)) (xorb a23 (xorb a29 a34)) (xorb a22 (xorb a28 a33)) (xorb a21 (xorb a27 a32)) (xorb a20 (xorb a26 a31)) (xorb a19 (xorb a25 a30)) (xorb a18 (xorb a24 a29)) (xorb a17 (xorb a23 a28)) (xorb a16 (xorb a22 a27)) (xorb a15 (xorb a21 a26)) (xorb a14 (xorb a20 a25)) (xorb a13 (xorb a19 a24)) (xorb a12 (xorb a18 a23)) (xorb a11 (xorb a17 a22)) (xorb a10 (xorb a16 a21)) (xorb a9 (xorb a15 a20)) (xorb a8 (xorb a14 a19)) (xorb a7 (xorb a13 a18)) (xorb a6 (xorb a12 a17)) (xorb a5 (xorb a11 a16)) (xorb a4 (xorb a10 a15)) (xorb a3 (xorb a9 a14)) (xorb a2 (xorb a8 a13)) (xorb a1 (xorb a7 a12)) (xorb a0 (xorb a6 a11)) (xorb a63 (xorb a5 a10)) (xorb a62 (xorb a4 a9)) (xorb a61 (xorb a3 a8)) (xorb a60 (xorb a2 a7)) (xorb a59 (xorb a1 a6)) (xorb a58 (xorb a0 a5)) (xorb a57 (xorb a63 a4)) (xorb a56 (xorb a62 a3)) (xorb a55 (xorb a61 a2)) (xorb a54 (xorb a60 a1)) (xorb a53 (xorb a59 a0)) (xorb a52 (xorb a58 a63)) (xorb a51 (xorb a57 a62)) (xorb a50 (xorb a56 a61)) (xorb a49 (xorb a55 a60)) (xorb a48 (xorb a54 a59)) (xorb a47 (xorb a53 a58)) (xorb a46 (xorb a52 a57)) (xorb a45 (xorb a51 a56)) (xorb a44 (xorb a50 a55)) (xorb a43 (xorb a49 a54)) (xorb a42 (xorb a48 a53)) (xorb a41 (xorb a47 a52)) (xorb a40 (xorb a46 a51)) (xorb a39 (xorb a45 a50)) (xorb a38 (xorb a44 a49)) (xorb a37 (xorb a43 a48)) (xorb a36 (xorb a42 a47)) (xorb a35 (xorb a41 a46)) (xorb a34 (xorb a40 a45)) (xorb a33 (xorb a39 a44)) (xorb a32 (xorb a38 a43)) (xorb a31 (xorb a37 a42)) (xorb a30 (xorb a36 a41)) (xorb a29 (xorb a35 a40)) (xorb a28 (xorb a34 a39))
+    W64 (if a27 then (if a33 then a38 else negb a38) else (if a33 then negb a38 else a38)) (if a26 then (if a32 then a37 else negb a37) else (if a32 then negb a37 else a37)) (if a25 then (if a31 then a36 else negb a36) else (if a31 then negb a36 else a36)) (if a24 then (if a30 then a35 else negb a35) else (if a30 then negb a35 else a35)) (if a23 then (if a29 then a34 else negb a34) else (if a29 then negb a34 else a34)) (if a22 then (if a28 then a33 else negb a33) else (if a28 then negb a33 else a33)) (if a21 then (if a27 then a32 else negb a32) else (if a27 then negb a32 else a32)) (if a20 then (if a26 then a31 else negb a31) else (if a26 then negb a31 else a31)) (if a19 then (if a25 then a30 else negb a30) else (if a25 then negb a30 else a30)) (if a18 then (if a24 then a29 else negb a29) else (if a24 then negb a29 else a29)) (if a17 then (if a23 then a28 else negb a28) else (if a23 then negb a28 else a28)) (if a16 then (if a22 then a27 else negb a27) else (if a22 then negb a27 else a27)) (if a15 then (if a21 then a26 else negb a26) else (if a21 then negb a26 else a26)) (if a14 then (if a20 then a25 else negb a25) else (if a20 then negb a25 else a25)) (if a13 then (if a19 then a24 else negb a24) else (if a19 then negb a24 else a24)) (if a12 then (if a18 then a23 else negb a23) else (if a18 then negb a23 else a23)) (if a11 then (if a17 then a22 else negb a22) else (if a17 then negb a22 else a22)) (if a10 then (if a16 then a21 else negb a21) else (if a16 then negb a21 else a21)) (if a9 then (if a15 then a20 else negb a20) else (if a15 then negb a20 else a20)) (if a8 then (if a14 then a19 else negb a19) else (if a14 then negb a19 else a19)) (if a7 then (if a13 then a18 else negb a18) else (if a13 then negb a18 else a18)) (if a6 then (if a12 then a17 else negb a17) else (if a12 then negb a17 else a17)) (if a5 then (if a11 then a16 else negb a16) else (if a11 then negb a16 else a16)) (if a4 then (if a10 then a15 else negb a15) else (if a10 then negb a15 else a15)) (if a3 then (if a9 then a14 else negb a14) else (if a9 then negb a14 else a14)) (if a2 then (if a8 then a13 else negb a13) else (if a8 then negb a13 else a13)) (if a1 then (if a7 then a12 else negb a12) else (if a7 then negb a12 else a12)) (if a0 then (if a6 then a11 else negb a11) else (if a6 then negb a11 else a11)) (if a63 then (if a5 then a10 else negb a10) else (if a5 then negb a10 else a10)) (if a62 then (if a4 then a9 else negb a9) else (if a4 then negb a9 else a9)) (if a61 then (if a3 then a8 else negb a8) else (if a3 then negb a8 else a8)) (if a60 then (if a2 then a7 else negb a7) else (if a2 then negb a7 else a7)) (if a59 then (if a1 then a6 else negb a6) else (if a1 then negb a6 else a6)) (if a58 then (if a0 then a5 else negb a5) else (if a0 then negb a5 else a5)) (if a57 then (if a63 then a4 else negb a4) else (if a63 then negb a4 else a4)) (if a56 then (if a62 then a3 else negb a3) else (if a62 then negb a3 else a3)) (if a55 then (if a61 then a2 else negb a2) else (if a61 then negb a2 else a2)) (if a54 then (if a60 then a1 else negb a1) else (if a60 then negb a1 else a1)) (if a53 then (if a59 then a0 else negb a0) else (if a59 then negb a0 else a0)) (if a52 then (if a58 then a63 else negb a63) else (if a58 then negb a63 else a63)) (if a51 then (if a57 then a62 else negb a62) else (if a57 then negb a62 else a62)) (if a50 then (if a56 then a61 else negb a61) else (if a56 then negb a61 else a61)) (if a49 then (if a55 then a60 else negb a60) else (if a55 then negb a60 else a60)) (if a48 then (if a54 then a59 else negb a59) else (if a54 then negb a59 else a59)) (if a47 then (if a53 then a58 else negb a58) else (if a53 then negb a58 else a58)) (if a46 then (if a52 then a57 else negb a57) else (if a52 then negb a57 else a57)) (if a45 then (if a51 then a56 else negb a56) else (if a51 then negb a56 else a56)) (if a44 then (if a50 then a55 else negb a55) else (if a50 then negb a55 else a55)) (if a43 then (if a49 then a54 else negb a54) else (if a49 then negb a54 else a54)) (if a42 then (if a48 then a53 else negb a53) else (if a48 then negb a53 else a53)) (if a41 then (if a47 then a52 else negb a52) else (if a47 then negb a52 else a52)) (if a40 then (if a46 then a51 else negb a51) else (if a46 then negb a51 else a51)) (if a39 then (if a45 then a50 else negb a50) else (if a45 then negb a50 else a50)) (if a38 then (if a44 then a49 else negb a49) else (if a44 then negb a49 else a49)) (if a37 then (if a43 then a48 else negb a48) else (if a43 then negb a48 else a48)) (if a36 then (if a42 then a47 else negb a47) else (if a42 then negb a47 else a47)) (if a35 then (if a41 then a46 else negb a46) else (if a41 then negb a46 else a46)) (if a34 then (if a40 then a45 else negb a45) else (if a40 then negb a45 else a45)) (if a33 then (if a39 then a44 else negb a44) else (if a39 then negb a44 else a44)) (if a32 then (if a38 then a43 else negb a43) else (if a38 then negb a43 else a43)) (if a31 then (if a37 then a42 else negb a42) else (if a37 then negb a42 else a42)) (if a30 then (if a36 then a41 else negb a41) else (if a36 then negb a41 else a41)) (if a29 then (if a35 then a40 else negb a40) else (if a35 then negb a40 else a40)) (if a28 then (if a34 then a39 else negb a39) else (if a34 then negb a39 else a39))
   end.
 
 Definition w64_bsig1 (a : w64) : w64 :=
   match a with W64 a63 a62 a61 a60 a59 a58 a57 a56 a55 a54 a53 a52 a51 a50 a49 a48 a47 a46 a45 a44 a43 a42 a41 a40 a39 a38 a37 a36 a35 a34 a33 a32 a31 a30 a29 a28 a27 a26 a25 a24 a23 a22 a21 a20 a19 a18 a17 a16 a15 a14 a13 a12 a11 a10 a9 a8 a7 a6 a5 a4 a3 a2 a1 a0 =>
-    W64 (xorb a13 (xorb a17 a40)) (xorb a12 (xorb a16 a39)) (xorb a11 (xorb a15 a38)) (xorb a10 (xorb a14 a37)) (xorb a9 (xorb a13 a36)) (xorb a8 (xorb a12 a35)) (xorb a7 (xorb a11 a34)) (xorb a6 (xorb a10 a33)) (xorb a5 (xorb a9 a32)) (xorb a4 (xorb a8 a31)) (xorb a3 (xorb a7 a30)) (xorb a2 (xorb a6 a29)) (xorb a1 (xorb a5 a28)) (xorb a0 (xorb a4 a27)) (xorb a63 (xorb a3 a26)) (xorb a62 (xorb a2 a25)) (xorb a61 (xorb a1 a24)) (xorb a60 (xorb a0 a23)) (xorb a59 (xorb a63 a22)) (xorb a58 (xorb a62 a21)) (xorb a57 (xorb a61 a20)) (xorb a56 (xorb a60 a19)) (xorb a55 (xorb a59 a18)) (xorb a54 (xorb a58 a17)) (xorb a53 (xorb a57 a16)) (xorb a52 (xorb a56 a15)) (xorb a51 (xorb a55 a14)) (xorb a50 (xorb a54 a13)) (xorb a49 (xorb a53 a12)) (xorb a48 (xorb a52 a11)) (xorb a47 (xorb a51 a10)) (xorb a46 (xorb a50 a9)) (xorb a45 (xorb a49 a8)) (xorb a44 (xorb a48 a7)) (xorb a43 (xorb a47 a6)) (xorb a42 (xorb a46 a5)) (xorb a41 (xorb a45 a4)) (xorb a40 (xorb a44 a3)) (xorb a39 (xorb a43 a2)) (xorb a38 (xorb a42 a1)) (xorb a37 (xorb a41 a0)) (xorb a36 (xorb a40 a63)) (xorb a35 (xorb a39 a62)) (xorb a34 (xorb a38 a61)) (xorb a33 (xorb a37 a60)) (xorb a32 (xorb a36 a59)) (xorb a31 (xorb a35 a58)) (xorb a30 (xorb a34 a57)) (xorb a29 (xorb a33 a56)) (xorb a28 (xorb a32 a55)) (xorb a27 (xorb a31 a54)) (xorb a26 (xorb a30 a53)) (xorb a25 (xorb a29 a52)) (xorb a24 (xorb a28 a51)) (xorb a23 (xorb a27 a50)) (xorb a22 (xorb a26 a49)) (xorb a21 (xorb a25 a48)) (xorb a20 (xorb a24 a47)) (xorb a19 (xorb a23 a46)) (xorb a18 (xorb a22 a45)) (xorb a17 (xorb a21 a44)) (xorb a16 (xorb a20 a43)) (xorb a15 (xorb a19 a42)) (xorb a14 (xorb a18 a41))
+    W64 (if a13 then (if a17 then a40 else negb a40) else (if a17 then negb a40 else a40)) (if a12 then (if a16 then a39 else negb a39) else (if a16 then negb a39 else a39)) (if a11 then (if a15 then a38 else negb a38) else (if a15 then negb a38 else a38)) (if a10 then (if a14 then a37 else negb a37) else (if a14 then negb a37 else a37)) (if a9 then (if a13 then a36 else negb a36) else (if a13 then negb a36 else a36)) (if a8 then (if a12 then a35 else negb a35) else (if a12 then negb a35 else a35)) (if a7 then (if a11 then a34 else negb a34) else (if a11 then negb a34 else a34)) (if a6 then (if a10 then a33 else negb a33) else (if a10 then negb a33 else a33)) (if a5 then (if a9 then a32 else negb a32) else (if a9 then negb a32 else a32)) (if a4 then (if a8 then a31 else negb a31) else (if a8 then negb a31 else a31)) (if a3 then (if a7 then a30 else negb a30) else (if a7 then negb a30 else a30)) (if a2 then (if a6 then a29 else negb a29) else (if a6 then negb a29 else a29)) (if a1 then (if a5 then a28 else negb a28) else (if a5 then negb a28 else a28)) (if a0 then (if a4 then a27 else negb a27) else (if a4 then negb a27 else a27)) (if a63 then (if a3 then a26 else negb a26) else (if a3 then negb a26 else a26)) (if a62 then (if a2 then a25 else negb a25) else (if a2 then negb a25 else a25)) (if a61 then (if a1 then a24 else negb a24) else (if a1 then negb a24 else a24)) (if a60 then (if a0 then a23 else negb a23) else (if a0 then negb a23 else a23)) (if a59 then (if a63 then a22 else negb a22) else (if a63 then negb a22 else a22)) (if a58 then (if a62 then a21 else negb a21) else (if a62 then negb a21 else a21)) (if a57 then (if a61 then a20 else negb a20) else (if a61 then negb a20 else a20)) (if a56 then (if a60 then a19 else negb a19) else (if a60 then negb a19 else a19)) (if a55 then (if a59 then a18 else negb a18) else (if a59 then negb a18 else a18)) (if a54 then (if a58 then a17 else negb a17) else (if a58 then negb a17 else a17)) (if a53 then (if a57 then a16 else negb a16) else (if a57 then negb a16 else a16)) (if a52 then (if a56 then a15 else negb a15) else (if a56 then negb a15 else a15)) (if a51 then (if a55 then a14 else negb a14) else (if a55 then negb a14 else a14)) (if a50 then (if a54 then a13 else negb a13) else (if a54 then negb a13 else a13)) (if a49 then (if a53 then a12 else negb a12) else (if a53 then negb a12 else a12)) (if a48 then (if a52 then a11 else negb a11) else (if a52 then negb a11 else a11)) (if a47 then (if a51 then a10 else negb a10) else (if a51 then negb a10 else a10)) (if a46 then (if a50 then a9 else negb a9) else (if a50 then negb a9 else a9)) (if a45 then (if a49 then a8 else negb a8) else (if a49 then negb a8 else a8)) (if a44 then (if a48 then a7 else negb a7) else (if a48 then negb a7 else a7)) (if a43 then (if a47 then a6 else negb a6) else (if a47 then negb a6 else a6)) (if a42 then (if a46 then a5 else negb a5) else (if a46 then negb a5 else a5)) (if a41 then (if a45 then a4 else negb a4) else (if a45 then negb a4 else a4)) (if a40 then (if a44 then a3 else negb a3) else (if a44 then negb a3 else a3)) (if a39 then (if a43 then a2 else negb a2) else (if a43 then negb a2 else a2)) (if a38 then (if a42 then a1 else negb a1) else (if a42 then negb a1 else a1)) (if a37 then (if a41 then a0 else negb a0) else (if a41 then negb a0 else a0)) (if a36 then (if a40 then a63 else negb a63) else (if a40 then negb a63 else a63)) (if a35 then (if a39 then a62 else negb a62) else (if a39 then negb a62 else a62)) (if a34 then (if a38 then a61 else negb a61) else (if a38 then negb a61 else a61)) (if a33 then (if a37 then a60 else negb a60) else (if a37 then negb a60 else a60)) (if a32 then (if a36 then a59 else negb a59) else (if a36 then negb a59 else a59)) (if a31 then (if a35 then a58 else negb a58) else (if a35 then negb a58 else a58)) (if a30 then (if a34 then a57 else negb a57) else (if a34 then negb a57 else a57)) (if a29 then (if a33 then a56 else negb a56) else (if a33 then negb a56 else a56)) (if a28 then (if a32 then a55 else negb a55) else (if a32 then negb a55 else a55)) (if a27 then (if a31 then a54 else negb a54) else (if a31 then negb a54 else a54)) (if a26 then (if a30 then a53 else negb a53) else (if a30 then negb a53 else a53)) (if a25 then (if a29 then a52 else negb a52) else (if a29 then negb a52 else a52)) (if a24 then (if a28 then a51 else negb a51) else (if a28 then negb a51 else a51)) (if a23 then (if a27 then a50 else negb a50) else (if a27 then negb a50 else a50)) (if a22 then (if a26 then a49 else negb a49) else (if a26 then negb a49 else a49)) (if a21 then (if a25 then a48 else negb a48) else (if a25 then negb a48 else a48)) (if a20 then (if a24 then a47 else negb a47) else (if a24 then negb a47 else a47)) (if a19 then (if a23 then a46 else negb a46) else (if a23 then negb a46 else a46)) (if a18 then (if a22 then a45 else negb a45) else (if a22 then negb a45 else a45)) (if a17 then (if a21 then a44 else negb a44) else (if a21 then negb a44 else a44)) (if a16 then (if a20 then a43 else negb a43) else (if a20 then negb a43 else a43)) (if a15 then (if a19 then a42 else negb a42) else (if a19 then negb a42 else a42)) (if a14 then (if a18 then a41 else negb a41) else (if a18 then negb a41 else a41))
   end.
 
 Definition w64_ssig0 (a : w64) : w64 :=
   match a with W64 a63 a62 a61 a60 a59 a58 a57 a56 a55 a54 a53 a52 a51 a50 a49 a48 a47 a46 a45 a44 a43 a42 a41 a40 a39 a38 a37 a36 a35 a34 a33 a32 a31 a30 a29 a28 a27 a26 a25 a24 a23 a22 a21 a20 a19 a18 a17 a16 a15 a14 a13 a12 a11 a10 a9 a8 a7 a6 a5 a4 a3 a2 a1 a0 =>
-    W64 (xorb a0 a7) (xorb a63 a6) (xorb a62 a5) (xorb a61 a4) (xorb a60 a3) (xorb a59 a2) (xorb a58 a1) (xorb a57 (xorb a0 a63)) (xorb a56 (xorb a63 a62)) (xorb a55 (xorb a62 a61)) (xorb a54 (xorb a61 a60)) (xorb a53 (xorb a60 a59)) (xorb a52 (xorb a59 a58)) (xorb a51 (xorb a58 a57)) (xorb a50 (xorb a57 a56)) (xorb a49 (xorb a56 a55)) (xorb a48 (xorb a55 a54)) (xorb a47 (xorb a54 a53)) (xorb a46 (xorb a53 a52)) (xorb a45 (xorb a52 a51)) (xorb a44 (xorb a51 a50)) (xorb a43 (xorb a50 a49)) (xorb a42 (xorb a49 a48)) (xorb a41 (xorb a48 a47)) (xorb a40 (xorb a47 a46)) (xorb a39 (xorb a46 a45)) (xorb a38 (xorb a45 a44)) (xorb a37 (xorb a44 a43)) (xorb a36 (xorb a43 a42)) (xorb a35 (xorb a42 a41)) (xorb a34 (xorb a41 a40)) (xorb a33 (xorb a40 a39)) (xorb a32 (xorb a39 a38)) (xorb a31 (xorb a38 a37)) (xorb a30 (xorb a37 a36)) (xorb a29 (xorb a36 a35)) (xorb a28 (xorb a35 a34)) (xorb a27 (xorb a34 a33)) (xorb a26 (xorb a33 a32)) (xorb a25 (xorb a32 a31)) (xorb a24 (xorb a31 a30)) (xorb a23 (xorb a30 a29)) (xorb a22 (xorb a29 a28)) (xorb a21 (xorb a28 a27)) (xorb a20 (xorb a27 a26)) (xorb a19 (xorb a26 a25)) (xorb a18 (xorb a25 a24)) (xorb a17 (xorb a24 a23)) (xorb a16 (xorb a23 a22)) (xorb a15 (xorb a22 a21)) (xorb a14 (xorb a21 a20)) (xorb a13 (xorb a20 a19)) (xorb a12 (xorb a19 a18)) (xorb a11 (xorb a18 a17)) (xorb a10 (xorb a17 a16)) (xorb a9 (xorb a16 a15)) (xorb a8 (xorb a15 a14)) (xorb a7 (xorb a14 a13)) (xorb a6 (xorb a13 a12)) (xorb a5 (xorb a12 a11)) (xorb a4 (xorb a11 a10)) (xorb a3 (xorb a10 a9)) (xorb a2 (xorb a9 a8)) (xorb a1 (xorb a8 a7))
+    W64 (xorb a0 a7) (xorb a63 a6) (xorb a62 a5) (xorb a61 a4) (xorb a60 a3) (xorb a59 a2) (xorb a58 a1) (if a57 then (if a0 then a63 else negb a63) else (if a0 then negb a63 else a63)) (if a56 then (if a63 then a62 else negb a62) else (if a63 then negb a62 else a62)) (if a55 then (if a62 then a61 else negb a61) else (if a62 then negb a61 else a61)) (if a54 then (if a61 then a60 else negb a60) else (if a61 then negb a60 else a60)) (if a53 then (if a60 then a59 else negb a59) else (if a60 then negb a59 else a59)) (if a52 then (if a59 then a58 else negb a58) else (if a59 then negb a58 else a58)) (if a51 then (if a58 then a57 else negb a57) else (if a58 then negb a57 else a57)) (if a50 then (if a57 then a56 else negb a56) else (if a57 then negb a56 else a56)) (if a49 then (if a56 then a55 else negb a55) else (if a56 then negb a55 else a55)) (if a48 then (if a55 then a54 else negb a54) else (if a55 then negb a54 else a54)) (if a47 then (if a54 then a53 else negb a53) else (if a54 then negb a53 else a53)) (if a46 then (if a53 then a52 else negb a52) else (if a53 then negb a52 else a52)) (if a45 then (if a52 then a51 else negb a51) else (if a52 then negb a51 else a51)) (if a44 then (if a51 then a50 else negb a50) else (if a51 then negb a50 else a50)) (if a43 then (if a50 then a49 else negb a49) else (if a50 then negb a49 else a49)) (if a42 then (if a49 then a48 else negb a48) else (if a49 then negb a48 else a48)) (if a41 then (if a48 then a47 else negb a47) else (if a48 then negb a47 else a47)) (if a40 then (if a47 then a46 else negb a46) else (if a47 then negb a46 else a46)) (if a39 then (if a46 then a45 else negb a45) else (if a46 then negb a45 else a45)) (if a38 then (if a45 then a44 else negb a44) else (if a45 then negb a44 else a44)) (if a37 then (if a44 then a43 else negb a43) else (if a44 then negb a43 else a43)) (if a36 then (if a43 then a42 else negb a42) else (if a43 then negb a42 else a42)) (if a35 then (if a42 then a41 else negb a41) else (if a42 then negb a41 else a41)) (if a34 then (if a41 then a40 else negb a40) else (if a41 then negb a40 else a40)) (if a33 then (if a40 then a39 else negb a39) else (if a40 then negb a39 else a39)) (if a32 then (if a39 then a38 else negb a38) else (if a39 then negb a38 else a38)) (if a31 then (if a38 then a37 else negb a37) else (if a38 then negb a37 else a37)) (if a30 then (if a37 then a36 else negb a36) else (if a37 then negb a36 else a36)) (if a29 then (if a36 then a35 else negb a35) else (if a36 then negb a35 else a35)) (if a28 then (if a35 then a34 else negb a34) else (if a35 then negb a34 else a34)) (if a27 then (if a34 then a33 else negb a33) else (if a34 then negb a33 else a33)) (if a26 then (if a33 then a32 else negb a32) else (if a33 then negb a32 else a32)) (if a25 then (if a32 then a31 else negb a31) else (if a32 then negb a31 else a31)) (if a24 then (if a31 then a30 else negb a30) else (if a31 then negb a30 else a30)) (if a23 then (if a30 then a29 else negb a29) else (if a30 then negb a29 else a29)) (if a22 then (if a29 then a28 else negb a28) else (if a29 then negb a28 else a28)) (if a21 then (if a28 then a27 else negb a27) else (if a28 then negb a27 else a27)) (if a20 then (if a27 then a26 else negb a26) else (if a27 then negb a26 else a26)) (if a19 then (if a26 then a25 else negb a25) else (if a26 then negb a25 else a25)) (if a18 then (if a25 then a24 else negb a24) else (if a25 then negb a24 else a24)) (if a17 then (if a24 then a23 else negb a23) else (if a24 then negb a23 else a23)) (if a16 then (if a23 then a22 else negb a22) else (if a23 then negb a22 else a22)) (if a15 then (if a22 then a21 else negb a21) else (if a22 then negb a21 else a21)) (if a14 then (if a21 then a20 else negb a20) else (if a21 then negb a20 else a20)) (if a13 then (if a20 then a19 else negb a19) else (if a20 then negb a19 else a19)) (if a12 then (if a19 then a18 else negb a18) else (if a19 then negb a18 else a18)) (if a11 then (if a18 then a17 else negb a17) else (if a18 then negb a17 else a17)) (if a10 then (if a17 then a16 else negb a16) else (if a17 then negb a16 else a16)) (if a9 then (if a16 then a15 else negb a15) else (if a16 then negb a15 else a15)) (if a8 then (if a15 then a14 else negb a14) else (if a15 then negb a14 else a14)) (if a7 then (if a14 then a13 else negb a13) else (if a14 then negb a13 else a13)) (if a6 then (if a13 then a12 else negb a12) else (if a13 then negb a12 else a12)) (if a5 then (if a12 then a11 else negb a11) else (if a12 then negb a11 else a11)) (if a4 then (if a11 then a10 else negb a10) else (if a11 then negb a10 else a10)) (if a3 then (if a10 then a9 else negb a9) else (if a10 then negb a9 else a9)) (if a2 then (if a9 then a8 else negb a8) else (if a9 then negb a8 else a8)) (if a1 then (if a8 then a7 else negb a7) else (if a8 then negb a7 else a7))
   end.
 
 Definition w64_ssig1 (a : w64) : w64 :=
   match a with W64 a63 a62 a61 a60 a59 a58 a57 a56 a55 a54 a53 a52 a51 a50 a49 a48 a47 a46 a45 a44 a43 a42 a41 a40 a39 a38 a37 a36 a35 a34 a33 a32 a31 a30 a29 a28 a27 a26 a25 a24 a23 a22 a21 a20 a19 a18 a17 a16 a15 a14 a13 a12 a11 a10 a9 a8 a7 a6 a5 a4 a3 a2 a1 a0 =>
-    W64 (xorb a18 a60) (xorb a17 a59) (xorb a16 a58) (xorb a15 a57) (xorb a14 a56) (xorb a13 a55) (xorb a12 (xorb a54 a63)) (xorb a11 (xorb a53 a62)) (xorb a10 (xorb a52 a61)) (xorb a9 (xorb a51 a60)) (xorb a8 (xorb a50 a59)) (xorb a7 (xorb a49 a58)) (xorb a6 (xorb a48 a57)) (xorb a5 (xorb a47 a56)) (xorb a4 (xorb a46 a55)) (xorb a3 (xorb a45 a54)) (xorb a2 (xorb a44 a53)) (xorb a1 (xorb a43 a52)) (xorb a0 (xorb a42 a51)) (xorb a63 (xorb a41 a50)) (xorb a62 (xorb a40 a49)) (xorb a61 (xorb a39 a48)) (xorb a60 (xorb a38 a47)) (xorb a59 (xorb a37 a46)) (xorb a58 (xorb a36 a45)) (xorb a57 (xorb a35 a44)) (xorb a56 (xorb a34 a43)) (xorb a55 (xorb a33 a42)) (xorb a54 (xorb a32 a41)) (xorb a53 (xorb a31 a40)) (xorb a52 (xorb a30 a39)) (xorb a51 (xorb a29 a38)) (xorb a50 (xorb a28 a37)) (xorb a49 (xorb a27 a36)) (xorb a48 (xorb a26 a35)) (xorb a47 (xorb a25 a34)) (xorb a46 (xorb a24 a33)) (xorb a45 (xorb a23 a32)) (xorb a44 (xorb a22 a31)) (xorb a43 (xorb a21 a30)) (xorb a42 (xorb a20 a29)) (xorb a41 (xorb a19 a28)) (xorb a40 (xorb a18 a27)) (xorb a39 (xorb a17 a26)) (xorb a38 (xorb a16 a25)) (xorb a37 (xorb a15 a24)) (xorb a36 (xorb a14 a23)) (xorb a35 (xorb a13 a22)) (xorb a34 (xorb a12 a21)) (xorb a33 (xorb a11 a20)) (xorb a32 (xorb a10 a19)) (xorb a31 (xorb a9 a18)) (xorb a30 (xorb a8 a17)) (xorb a29 (xorb a7 a16)) (xorb a28 (xorb a6 a15)) (xorb a27 (xorb a5 a14)) (xorb a26 (xorb a4 a13)) (xorb a25 (xorb a3 a12)) (xorb a24 (xorb a2 a11)) (xorb a23 (xorb a1 a10)) (xorb a22 (xorb a0 a9)) (xorb a21 (xorb a63 a8)) (xorb a20 (xorb a62 a7)) (xorb a19 (xorb a61 a6))
+    W64 (xorb a18 a60) (xorb a17 a59) (xorb a16 a58) (xorb a15 a57) (xorb a14 a56) (xorb a13 a55) (if a12 then (if a54 then a63 else negb a63) else (if a54 then negb a63 else a63)) (if a11 then (if a53 then a62 else negb a62) else (if a53 then negb a62 else a62)) (if a10 then (if a52 then a61 else negb a61) else (if a52 then negb a61 else a61)) (if a9 then (if a51 then a60 else negb a60) else (if a51 then negb a60 else a60)) (if a8 then (if a50 then a59 else negb a59) else (if a50 then negb a59 else a59)) (if a7 then (if a49 then a58 else negb a58) else (if a49 then negb a58 else a58)) (if a6 then (if a48 then a57 else negb a57) else (if a48 then negb a57 else a57)) (if a5 then (if a47 then a56 else negb a56) else (if a47 then negb a56 else a56)) (if a4 then (if a46 then a55 else negb a55) else (if a46 then negb a55 else a55)) (if a3 then (if a45 then a54 else negb a54) else (if a45 then negb a54 else a54)) (if a2 then (if a44 then a53 else negb a53) else (if a44 then negb a53 else a53)) (if a1 then (if a43 then a52 else negb a52) else (if a43 then negb a52 else a52)) (if a0 then (if a42 then a51 else negb a51) else (if a42 then negb a51 else a51)) (if a63 then (if a41 then a50 else negb a50) else (if a41 then negb a50 else a50)) (if a62 then (if a40 then a49 else negb a49) else (if a40 then negb a49 else a49)) (if a61 then (if a39 then a48 else negb a48) else (if a39 then negb a48 else a48)) (if a60 then (if a38 then a47 else negb a47) else (if a38 then negb a47 else a47)) (if a59 then (if a37 then a46 else negb a46) else (if a37 then negb a46 else a46)) (if a58 then (if a36 then a45 else negb a45) else (if a36 then negb a45 else a45)) (if a57 then (if a35 then a44 else negb a44) else (if a35 then negb a44 else a44)) (if a56 then (if a34 then a43 else negb a43) else (if a34 then negb a43 else a43)) (if a55 then (if a33 then a42 else negb a42) else (if a33 then negb a42 else a42)) (if a54 then (if a32 then a41 else negb a41) else (if a32 then negb a41 else a41)) (if a53 then (if a31 then a40 else negb a40) else (if a31 then negb a40 else a40)) (if a52 then (if a30 then a39 else negb a39) else (if a30 then negb a39 else a39)) (if a51 then (if a29 then a38 else negb a38) else (if a29 then negb a38 else a38)) (if a50 then (if a28 then a37 else negb a37) else (if a28 then negb a37 else a37)) (if a49 then (if a27 then a36 else negb a36) else (if a27 then negb a36 else a36)) (if a48 then (if a26 then a35 else negb a35) else (if a26 then negb a35 else a35)) (if a47 then (if a25 then a34 else negb a34) else (if a25 then negb a34 else a34)) (if a46 then (if a24 then a33 else negb a33) else (if a24 then negb a33 else a33)) (if a45 then (if a23 then a32 else negb a32) else (if a23 then negb a32 else a32)) (if a44 then (if a22 then a31 else negb a31) else (if a22 then negb a31 else a31)) (if a43 then (if a21 then a30 else negb a30) else (if a21 then negb a30 else a30)) (if a42 then (if a20 then a29 else negb a29) else (if a20 then negb a29 else a29)) (if a41 then (if a19 then a28 else negb a28) else (if a19 then negb a28 else a28)) (if a40 then (if a18 then a27 else negb a27) else (if a18 then negb a27 else a27)) (if a39 then (if a17 then a26 else negb a26) else (if a17 then negb a26 else a26)) (if a38 then (if a16 then a25 else negb a25) else (if a16 then negb a25 else a25)) (if a37 then (if a15 then a24 else negb a24) else (if a15 then negb a24 else a24)) (if a36 then (if a14 then a23 else negb a23) else (if a14 then negb a23 else a23)) (if a35 then (if a13 then a22 else negb a22) else (if a13 then negb a22 else a22)) (if a34 then (if a12 then a21 else negb a21) else (if a12 then negb a21 else a21)) (if a33 then (if a11 then a20 else negb a20) else (if a11 then negb a20 else a20)) (if a32 then (if a10 then a19 else negb a19) else (if a10 then negb a19 else a19)) (if a31 then (if a9 then a18 else negb a18) else (if a9 then negb a18 else a18)) (if a30 then (if a8 then a17 else negb a17) else (if a8 then negb a17 else a17)) (if a29 then (if a7 then a16 else negb a16) else (if a7 then negb a16 else a16)) (if a28 then (if a6 then a15 else negb a15) else (if a6 then negb a15 else a15)) (if a27 then (if a5 then a14 else negb a14) else (if a5 then negb a14 else a14)) (if a26 then (if a4 then a13 else negb a13) else (if a4 then negb a13 else a13)) (if a25 then (if a3 then a12 else negb a12) else (if a3 then negb a12 else a12)) (if a24 then (if a2 then a11 else negb a11) else (if a2 then negb a11 else a11)) (if a23 then (if a1 then a10 else negb a10) else (if a1 then negb a10 else a10)) (if a22 then (if a0 then a9 else negb a9) else (if a0 then negb a9 else a9)) (if a21 then (if a63 then a8 else negb a8) else (if a63 then negb a8 else a8)) (if a20 then (if a62 then a7 else negb a7) else (if a62 then negb a7 else a7)) (if a19 then (if a61 then a6 else negb a6) else (if a61 then negb a6 else a6))
   end.
 
 Definition w64_add (a b : w64) : w64 :=
   match a, b with W64 a63 a62 a61 a60 a59 a58 a57 a56 a55 a54 a53 a52 a51 a50 a49 a48 a47 a46 a45 a44 a43 a42 a41 a40 a39 a38 a37 a36 a35 a34 a33 a32 a31 a30 a29 a28 a27 a26 a25 a24 a23 a22 a21 a20 a19 a18 a17 a16 a15 a14 a13 a12 a11 a10 a9 a8 a7 a6 a5 a4 a3 a2 a1 a0, W64 b63 b62 b61 b60 b59 b58 b57 b56 b55 b54 b53 b52 b51 b50 b49 b48 b47 b46 b45 b44 b43 b42 b41 b40 b39 b38 b37 b36 b35 b34 b33 b32 b31 b30 b29 b28 b27 b26 b25 b24 b23 b22 b21 b20 b19 b18 b17 b16 b15 b14 b13 b12 b11 b10 b9 b8 b7 b6 b5 b4 b3 b2 b1 b0 =>
     let s0 := xorb a0 b0 in let c1 := andb a0 b0 in
-    let s1 := xorb a1 (xorb b1 c1) in let c2 := if a1 then orb b1 c1 else andb b1 c1 in
-    let s2 := xorb a2 (xorb b2 c2) in let c3 := if a2 then orb b2 c2 else andb b2 c2 in
-    let s3 := xorb a3 (xorb b3 c3) in let c4 := if a3 then orb b3 c3 else andb b3 c3 in
-    let s4 := xorb a4 (xorb b4 c4) in let c5 := if a4 then orb b4 c4 else andb b4 c4 in
-    let s5 := xorb a5 (xorb b5 c5) in let c6 := if a5 then orb b5 c5 else andb b5 c5 in
-    let s6 := xorb a6 (xorb b6 c6) in let c7 := if a6 then orb b6 c6 else andb b6 c6 in
-    let s7 := xorb a7 (xorb b7 c7) in let c8 := if a7 then orb b7 c7 else andb b7 c7 in
-    let s8 := xorb a8 (xorb b8 c8) in let c9 := if a8 then orb b8 c8 else andb b8 c8 in
-    let s9 := xorb a9 (xorb b9 c9) in let c10 := if a9 then orb b9 c9 else andb b9 c9 in
-    let s10 := xorb a10 (xorb b10 c10) in let c11 := if a10 then orb b10 c10 else andb b10 c10 in
-    let s11 := xorb a11 (xorb b11 c11) in let c12 := if a11 then orb b11 c11 else andb b11 c11 in
-    let s12 := xorb a12 (xorb b12 c12) in let c13 := if a12 then orb b12 c12 else andb b12 c12 in
-    let s13 := xorb a13 (xorb b13 c13) in let c14 := if a13 then orb b13 c13 else andb b13 c13 in
-    let s14 := xorb a14 (xorb b14 c14) in let c15 := if a14 then orb b14 c14 else andb b14 c14 in
-    let s15 := xorb a15 (xorb b15 c15) in let c16 := if a15 then orb b15 c15 else andb b15 c15 in
-    let s16 := xorb a16 (xorb b16 c16) in let c17 := if a16 then orb b16 c16 else andb b16 c16 in
-    let s17 := xorb a17 (xorb b17 c17) in let c18 := if a17 then orb b17 c17 else andb b17 c17 in
-    let s18 := xorb a18 (xorb b18 c18) in let c19 := if a18 then orb b18 c18 else andb b18 c18 in
-    let s19 := xorb a19 (xorb b19 c19) in let c20 := if a19 then orb b19 c19 else andb b19 c19 in
-    let s20 := xorb a20 (xorb b20 c20) in let c21 := if a20 then orb b20 c20 else andb b20 c20 in
-    let s21 := xorb a21 (xorb b21 c21) in let c22 := if a21 then orb b21 c21 else andb b21 c21 in
-    let s22 := xorb a22 (xorb b22 c22) in let c23 := if a22 then orb b22 c22 else andb b22 c22 in
-    let s23 := xorb a23 (xorb b23 c23) in let c24 := if a23 then orb b23 c23 else andb b23 c23 in
-    let s24 := xorb a24 (xorb b24 c24) in let c25 := if a24 then orb b24 c24 else andb b24 c24 in
-    let s25 := xorb a25 (xorb b25 c25) in let c26 := if a25 then orb b25 c25 else andb b25 c25 in
-    let s26 := xorb a26 (xorb b26 c26) in let c27 := if a26 then orb b26 c26 else andb b26 c26 in
-    let s27 := xorb a27 (xorb b27 c27) in let c28 := if a27 then orb b27 c27 else andb b27 c27 in
-    let s28 := xorb a28 (xorb b28 c28) in let c29 := if a28 then orb b28 c28 else andb b28 c28 in
-    let s29 := xorb a29 (xorb b29 c29) in let c30 := if a29 then orb b29 c29 else andb b29 c29 in
-    let s30 := xorb a30 (xorb b30 c30) in let c31 := if a30 then orb b30 c30 else andb b30 c30 in
-    let s31 := xorb a31 (xorb b31 c31) in let c32 := if a31 then orb b31 c31 else andb b31 c31 in
-    let s32 := xorb a32 (xorb b32 c32) in let c33 := if a32 then orb b32 c32 else andb b32 c32 in
-    let s33 := xorb a33 (xorb b33 c33) in let c34 := if a33 then orb b33 c33 else andb b33 c33 in
-    let s34 := xorb a34 (xorb b34 c34) in let c35 := if a34 then orb b34 c34 else andb b34 c34 in
-    let s35 := xorb a35 (xorb b35 c35) in let c36 := if a35 then orb b35 c35 else andb b35 c35 in
-    let s36 := xorb a36 (xorb b36 c36) in let c37 := if a36 then orb b36 c36 else andb b36 c36 in
-    let s37 := xorb a37 (xorb b37 c37) in let c38 := if a37 then orb b37 c37 else andb b37 c37 in
-    let s38 := xorb a38 (xorb b38 c38) in let c39 := if a38 then orb b38 c38 else andb b38 c38 in
-    let s39 := xorb a39 (xorb b39 c39) in let c40 := if a39 then orb b39 c39 else andb b39 c39 in
-    let s40 := xorb a40 (xorb b40 c40) in let c41 := if a40 then orb b40 c40 else andb b40 c40 in
-    let s41 := xorb a41 (xorb b41 c41) in let c42 := if a41 then orb b41 c41 else andb b41 c41 in
-    let s42 := xorb a42 (xorb b42 c42) in let c43 := if a42 then orb b42 c42 else andb b42 c42 in
-    let s43 := xorb a43 (xorb b43 c43) in let c44 := if a43 then orb b43 c43 else andb b43 c43 in
-    let s44 := xorb a44 (xorb b44 c44) in let c45 := if a44 then orb b44 c44 else andb b44 c44 in
-    let s45 := xorb a45 (xorb b45 c45) in let c46 := if a45 then orb b45 c45 else andb b45 c45 in
-    let s46 := xorb a46 (xorb b46 c46) in let c47 := if a46 then orb b46 c46 else andb b46 c46 in
-    let s47 := xorb a47 (xorb b47 c47) in let c48 := if a47 then orb b47 c47 else andb b47 c47 in
-    let s48 := xorb a48 (xorb b48 c48) in let c49 := if a48 then orb b48 c48 else andb b48 c48 in
-    let s49 := xorb a49 (xorb b49 c49) in let c50 := if a49 then orb b49 c49 else andb b49 c49 in
-    let s50 := xorb a50 (xorb b50 c50) in let c51 := if a50 then orb b50 c50 else andb b50 c50 in
-    let s51 := xorb a51 (xorb b51 c51) in let c52 := if a51 then orb b51 c51 else andb b51 c51 in
-    let s52 := xorb a52 (xorb b52 c52) in let c53 := if a52 then orb b52 c52 else andb b52 c52 in
-    let s53 := xorb a53 (xorb b53 c53) in let c54 := if a53 then orb b53 c53 else andb b53 c53 in
-    let s54 := xorb a54 (xorb b54 c54) in let c55 := if a54 then orb b54 c54 else andb b54 c54 in
-    let s55 := xorb a55 (xorb b55 c55) in let c56 := if a55 then orb b55 c55 else andb b55 c55 in
-    let s56 := xorb a56 (xorb b56 c56) in let c57 := if a56 then orb b56 c56 else andb b56 c56 in
-    let s57 := xorb a57 (xorb b57 c57) in let c58 := if a57 then orb b57 c57 else andb b57 c57 in
-    let s58 := xorb a58 (xorb b58 c58) in let c59 := if a58 then orb b58 c58 else andb b58 c58 in
-    let s59 := xorb a59 (xorb b59 c59) in let c60 := if a59 then orb b59 c59 else andb b59 c59 in
-    let s60 := xorb a60 (xorb b60 c60) in let c61 := if a60 then orb b60 c60 else andb b60 c60 in
-    let s61 := xorb a61 (xorb b61 c61) in let c62 := if a61 then orb b61 c61 else andb b61 c61 in
-    let s62 := xorb a62 (xorb b62 c62) in let c63 := if a62 then orb b62 c62 else andb b62 c62 in
+    let '(s1, c2) := fa a1 b1 c1 in
+    let '(s2, c3) := fa a2 b2 c2 in
+    let '(s3, c4) := fa a3 b3 c3 in
+    let '(s4, c5) := fa a4 b4 c4 in
+    let '(s5, c6) := fa a5 b5 c5 in
+    let '(s6, c7) := fa a6 b6 c6 in
+    let '(s7, c8) := fa a7 b7 c7 in
+    let '(s8, c9) := fa a8 b8 c8 in
+    let '(s9, c10) := fa a9 b9 c9 in
+    let '(s10, c11) := fa a10 b10 c10 in
+    let '(s11, c12) := fa a11 b11 c11 in
+    let '(s12, c13) := fa a12 b12 c12 in
+    let '(s13, c14) := fa a13 b13 c13 in
+    let '(s14, c15) := fa a14 b14 c14 in
+    let '(s15, c16) := fa a15 b15 c15 in
+    let '(s16, c17) := fa a16 b16 c16 in
+    let '(s17, c18) := fa a17 b17 c17 in
+    let '(s18, c19) := fa a18 b18 c18 in
+    let '(s19, c20) := fa a19 b19 c19 in
+    let '(s20, c21) := fa a20 b20 c20 in
+    let '(s21, c22) := fa a21 b21 c21 in
+    let '(s22, c23) := fa a22 b22 c22 in
+    let '(s23, c24) := fa a23 b23 c23 in
+    let '(s24, c25) := fa a24 b24 c24 in
+    let '(s25, c26) := fa a25 b25 c25 in
+    let '(s26, c27) := fa a26 b26 c26 in
+    let '(s27, c28) := fa a27 b27 c27 in
+    let '(s28, c29) := fa a28 b28 c28 in
+    let '(s29, c30) := fa a29 b29 c29 in
+    let '(s30, c31) := fa a30 b30 c30 in
+    let '(s31, c32) := fa a31 b31 c31 in
+    let '(s32, c33) := fa a32 b32 c32 in
+    let '(s33, c34) := fa a33 b33 c33 in
+    let '(s34, c35) := fa a34 b34 c34 in
+    let '(s35, c36) := fa a35 b35 c35 in
+    let '(s36, c37) := fa a36 b36 c36 in
+    let '(s37, c38) := fa a37 b37 c37 in
+    let '(s38, c39) := fa a38 b38 c38 in
+    let '(s39, c40) := fa a39 b39 c39 in
+    let '(s40, c41) := fa a40 b40 c40 in
+    let '(s41, c42) := fa a41 b41 c41 in
+    let '(s42, c43) := fa a42 b42 c42 in
+    let '(s43, c44) := fa a43 b43 c43 in
+    let '(s44, c45) := fa a44 b44 c44 in
+    let '(s45, c46) := fa a45 b45 c45 in
+    let '(s46, c47) := fa a46 b46 c46 in
+    let '(s47, c48) := fa a47 b47 c47 in
+    let '(s48, c49) := fa a48 b48 c48 in
+    let '(s49, c50) := fa a49 b49 c49 in
+    let '(s50, c51) := fa a50 b50 c50 in
+    let '(s51, c52) := fa a51 b51 c51 in
+    let '(s52, c53) := fa a52 b52 c52 in
+    let '(s53, c54) := fa a53 b53 c53 in
+    let '(s54, c55) := fa a54 b54 c54 in
+    let '(s55, c56) := fa a55 b55 c55 in
+    let '(s56, c57) := fa a56 b56 c56 in
+    let '(s57, c58) := fa a57 b57 c57 in
+    let '(s58, c59) := fa a58 b58 c58 in
+    let '(s59, c60) := fa a59 b59 c59 in
+    let '(s60, c61) := fa a60 b60 c60 in
+    let '(s61, c62) := fa a61 b61 c61 in
+    let '(s62, c63) := fa a62 b62 c62 in
     let s63 := xorb a63 (xorb b63 c63) in
     W64 s63 s62 s61 s60 s59 s58 s57 s56 s55 s54 s53 s52 s51 s50 s49 s48 s47 s46 s45 s44 s43 s42 s41 s40 s39 s38 s37 s36 s35 s34 s33 s32 s31 s30 s29 s28 s27 s26 s25 s24 s23 s22 s21 s20 s19 s18 s17 s16 s15 s14 s13 s12 s11 s10 s9 s8 s7 s6 s5 s4 s3 s2 s1 s0
   end.
@@ -509,18 +514,18 @@ Definition sha384 (m : list N) : list N :=
   octets_of_w64 (se s) ++ octets_of_w64 (sf s).
 
 (* output sizes (used by HMAC/TSIG truncation arithmetic) *)
+Lemma octets_of_w32_length x : List.length (octets_of_w32 x) = 4%nat.
+Proof. destruct x. reflexivity. Qed.
+Lemma octets_of_w64_length x : List.length (octets_of_w64 x) = 8%nat.
+Proof. destruct x. reflexivity. Qed.
 Lemma sha1_length m : List.length (sha1 m) = 20%nat.
-Proof. unfold sha1. repeat rewrite app_length.
-  repeat match goal with |- context [octets_of_w32 ?x] => destruct x end. reflexivity. Qed.
+Proof. unfold sha1. repeat rewrite app_length. repeat rewrite octets_of_w32_length. reflexivity. Qed.
 Lemma sha256_length m : List.length (sha256 m) = 32%nat.
-Proof. unfold sha256. repeat rewrite app_length.
-  repeat match goal with |- context [octets_of_w32 ?x] => destruct x end. reflexivity. Qed.
+Proof. unfold sha256. repeat rewrite app_length. repeat rewrite octets_of_w32_length. reflexivity. Qed.
 Lemma sha384_length m : List.length (sha384 m) = 48%nat.
-Proof. unfold sha384. repeat rewrite app_length.
-  repeat match goal with |- context [octets_of_w64 ?x] => destruct x end. reflexivity. Qed.
+Proof. unfold sha384. repeat rewrite app_length. repeat rewrite octets_of_w64_length. reflexivity. Qed.
 Lemma sha512_length m : List.length (sha512 m) = 64%nat.
-Proof. unfold sha512. repeat rewrite app_length.
-  repeat match goal with |- context [octets_of_w64 ?x] => destruct x end. reflexivity. Qed.
+Proof. unfold sha512. repeat rewrite app_length. repeat rewrite octets_of_w64_length. reflexivity. Qed.
 
 (* ======== test vectors ======== *)
 Definition str (s : string) : list N := map N_of_ascii (list_ascii_of_string s).
